@@ -70,7 +70,7 @@ def gen_difficulty(rng, hostile):
     return L
 
 
-def gen_events(rng, hostile, tmax):
+def gen_events(rng, hostile, tmax, tshift=0):
     L = ["[Events]", "//Background and Video events"]
     if rng.random() < 0.7:
         L.append(rng.choice(['0,0,"bg.jpg",0,0', '0,0,"BG with space.png"', 'Video,0,"v.mp4"', '1,0,pic.png', '4,0,0,"sb.png"']))
@@ -79,11 +79,11 @@ def gen_events(rng, hostile, tmax):
             L.append(rng.choice(EVENT_LINES))
         else:
             a = rng.randint(0, max(1, tmax))
-            L.append(f"2,{a},{a + rng.choice([100, 700, 5000, -50])}")
+            L.append(f"2,{a + tshift},{a + tshift + rng.choice([100, 700, 5000, -50])}")
     return L
 
 
-def gen_timing(rng, mode, hostile, tmax, chronological):
+def gen_timing(rng, mode, hostile, tmax, chronological, tshift=0, integer_times=False):
     L = ["[TimingPoints]"]
     t = rng.choice([0, -100, 250])
     n = rng.randint(0, 8)
@@ -91,9 +91,10 @@ def gen_timing(rng, mode, hostile, tmax, chronological):
     for _ in range(n):
         times.append(t)
         r = rng.random()
-        t += 0 if r < 0.25 else rng.choice([1, 120, 500, 2000, 0.5])
+        t += 0 if r < 0.25 else rng.choice([1, 120, 500, 2000, 1 if integer_times else 0.5])
     if not chronological:
         rng.shuffle(times)
+    times = [x + tshift for x in times]
     first = True
     for t in times:
         timing = first or rng.random() < 0.3
@@ -122,7 +123,7 @@ def gen_colours(rng, hostile):
     return L
 
 
-def gen_objects(rng, mode, hostile, chronological):
+def gen_objects(rng, mode, hostile, chronological, tshift=0, integer_times=False):
     L = ["[HitObjects]"]
     t = rng.choice([0, 500, 1234])
     n = rng.randint(0, 10)
@@ -133,7 +134,7 @@ def gen_objects(rng, mode, hostile, chronological):
         snd = rng.choice([0, 2, 4, 8, 6, 14, 1])
         extra = rng.choice(["0:0:0:0:", "1:2:0:0:", "2:0:0:50:", "0:3:1:70:hit.wav", ""])
         kind = rng.choice("ccssnh" if mode == 3 else "cccssn")
-        tt = repr(t) if isinstance(t, float) else str(t)
+        tt = repr(t + tshift) if isinstance(t, float) else str(t + tshift)
         if kind == "c":
             o = f"{x},{y},{tt},{1 | nc},{snd},{extra}"
         elif kind == "s":
@@ -156,13 +157,13 @@ def gen_objects(rng, mode, hostile, chronological):
             else:
                 o = f"{x},{y},{tt},{2 | nc},{snd},{p},{reps},{ln},{es},{et},{extra}"
         elif kind == "n":
-            o = f"256,192,{tt},{8 | (nc & 4)},{snd},{t + rng.choice([500, 2000, -10])},{extra}"
+            o = f"256,192,{tt},{8 | (nc & 4)},{snd},{t + tshift + rng.choice([500, 2000, -10])},{extra}"
         else:
-            o = f"{x},192,{tt},128,{snd},{t + rng.choice([300, 1000, 0])}:{extra}"
+            o = f"{x},192,{tt},128,{snd},{t + tshift + rng.choice([300, 1000, 0])}:{extra}"
         if rng.random() < hostile:
             o = corrupt_line(rng, o)
         objs.append(o)
-        t += rng.choice([0, 100, 250, 1000, 3000, 0.5])
+        t += rng.choice([0, 100, 250, 1000, 3000, 1 if integer_times else 0.5])
     if not chronological:
         rng.shuffle(objs)
     return L + objs
@@ -183,13 +184,13 @@ def corrupt_line(rng, l):
     return ",".join(f)
 
 
-def gen_map(rng, hostile=0.0, chronological=True, mode=None, version=None):
+def gen_map(rng, hostile=0.0, chronological=True, mode=None, version=None, tshift=0, integer_times=False):
     mode = rng.randint(0, 3) if mode is None else mode
     version = rng.choice([14, 14, 9, 7, 3, 5, 12, 128, 6, 8]) if version is None else version
     lines = [f"osu file format v{version}", ""]
     secs = [gen_general(rng, mode, hostile), gen_editor(rng, hostile), gen_metadata(rng, hostile), gen_difficulty(rng, hostile),
-            gen_events(rng, hostile, 20000), gen_timing(rng, mode, hostile, 20000, chronological), gen_colours(rng, hostile),
-            gen_objects(rng, mode, hostile, chronological)]
+            gen_events(rng, hostile, 20000, tshift), gen_timing(rng, mode, hostile, 20000, chronological, tshift, integer_times),
+            gen_colours(rng, hostile), gen_objects(rng, mode, hostile, chronological, tshift, integer_times)]
     if rng.random() < 0.15:
         rng.shuffle(secs)
     if rng.random() < 0.1:
